@@ -766,8 +766,50 @@ def deps_of(classes, view, pname):
 
 
 # ------------------------------------------------------------------------------------------------
+def lazy_property_shape(repo):
+    """`lazy_property` must evaluate BEFORE it stores: the getter is
+         if not hasattr(self, <name>): setattr(self, <name>, <fn>(self))
+         return getattr(self, <name>)
+    (identifiers are free) - nothing may be written to the instance before `fn(self)` has returned, so that a
+    raising evaluation leaves the cache as it was (model: `Lazy.failedRead`)"""
+    path = os.path.join(repo, "pyrex", "internal_functions.py")
+    tree = ast.parse(open(path).read(), path)
+    lp = next((n for n in tree.body if isinstance(n, ast.FunctionDef) and n.name == "lazy_property"), None)
+    if lp is None or len(lp.args.args) != 1:
+        raise ExtractError("lazy_property not found")
+    fn_name = lp.args.args[0].arg
+    getters = [n for n in lp.body if isinstance(n, ast.FunctionDef)]
+    if len(getters) != 1 or len(getters[0].args.args) != 1:
+        raise ExtractError("lazy_property: expected exactly one inner getter")
+    g = getters[0]
+    me = g.args.args[0].arg
+    body = [x for x in g.body if not (isinstance(x, ast.Expr) and isinstance(x.value, ast.Constant))]
+
+    def call(node, fname, nargs):
+        return (isinstance(node, ast.Call) and isinstance(node.func, ast.Name) and node.func.id == fname
+                and len(node.args) == nargs and not node.keywords and isinstance(node.args[0], ast.Name)
+                and node.args[0].id == me)
+    ok = (len(body) == 2 and isinstance(body[0], ast.If) and not body[0].orelse and len(body[0].body) == 1
+          and isinstance(body[0].test, ast.UnaryOp) and isinstance(body[0].test.op, ast.Not)
+          and call(body[0].test.operand, "hasattr", 2)
+          and isinstance(body[0].body[0], ast.Expr) and call(body[0].body[0].value, "setattr", 3)
+          and isinstance(body[0].body[0].value.args[2], ast.Call)
+          and isinstance(body[0].body[0].value.args[2].func, ast.Name)
+          and body[0].body[0].value.args[2].func.id == fn_name
+          and len(body[0].body[0].value.args[2].args) == 1
+          and isinstance(body[0].body[0].value.args[2].args[0], ast.Name)
+          and body[0].body[0].value.args[2].args[0].id == me
+          and isinstance(body[1], ast.Return) and call(body[1].value, "getattr", 2)
+          and ast.dump(body[0].test.operand.args[1]) == ast.dump(body[0].body[0].value.args[1])
+          == ast.dump(body[1].value.args[1]))
+    if not ok:
+        raise ExtractError("lazy_property: the getter must be `if not hasattr(self, n): setattr(self, n, fn(self))` / "
+                           "`return getattr(self, n)` (nothing may be stored before the evaluation has returned)")
+
+
 def analyse(repo):
     classes = scan(repo)
+    lazy_property_shape(repo)
     class_clears = setattr_shape(classes)
     lazy_classes = [n for n in sorted(classes) if n != BASE and BASE in mro(classes, n)]
     if not lazy_classes:
